@@ -142,9 +142,15 @@ def run_case(ctx, inp):
     m = common.kv(ctx.ask(linkcommon.lrun_line(ref_inp, ref)))
     res.stat("movies")
     if m.get("verdict") not in ("ok", "capped", "expect-oversize"):
-        res.violation("correspondence-break", "reference run rejected by the monitor: %s" % m,
-                      impl=ref, model=m, broken="Linker.stepCheck",
-                      signature=dict(what="reference-rejected"))
+        reason = str(m.get("reason")).replace("_", " ")
+        omsg = linkcommon.oracle_levels(ref_inp, ref)
+        if omsg is not None:
+            res.violation("property-violation", "link_iter/recursive: %s [monitor: %s]" % (omsg, reason),
+                          impl=ref, model=m, signature=dict(what=reason, variant="reference"))
+        else:
+            res.violation("correspondence-break", "reference run rejected by the monitor: %s" % m,
+                          impl=ref, model=m, broken="Linker.stepCheck",
+                          signature=dict(what="reference-rejected"))
         return res
     ref_raised = any(l[2] is None for l in ref)
     unique = m.get("ties") == "0" and m.get("verdict") == "ok" and m.get("capped") == "0"
